@@ -21,6 +21,16 @@ R = z3.RealSort()
 SELV = z3.Function("select_result", R, R)
 
 
+def eqnum(x, z):
+    """x (a value produced by the real code) equals the z3 number z; False when x is not a number at all."""
+    from pyvc.sym import Unsupported
+
+    try:
+        return num(x) == z
+    except Unsupported:
+        return False
+
+
 def install_select_summary(c, calls):
     """RecordTensor.select consumed by contract (C02): result is an uninterpreted function of the (bounded) query time;
     the arguments are recorded so that the wiring clauses can inspect them."""
@@ -223,14 +233,14 @@ def _mk_at(cls):
             a = calls[0]
             c.ensure(f"{m}_reads_its_own_record", a[0] is syn.fields[recname])
             c.ensure(f"{m}_passes_selector", a[1] is sel)
-            c.ensure(f"{m}_tolerance_in_tolerance_position", num(a[4]) == tol.z)
+            c.ensure(f"{m}_tolerance_in_tolerance_position", eqnum(a[4], tol.z))
             exp_ob = sob if kind == "spike" else cob
             if exp_ob is None:
                 c.ensure(f"{m}_overbound_none_in_overbound_position", a[5] is None)
             else:
                 from pyvc.sym import as_bool
 
-                c.ensure(f"{m}_overbound_in_overbound_position", a[5] is not None and ((as_bool(a[5]) == as_bool(exp_ob)) if kind == "spike" else (num(a[5]) == num(exp_ob))))
+                c.ensure(f"{m}_overbound_in_overbound_position", a[5] is not None and ((as_bool(a[5]) == as_bool(exp_ob)) if (kind == "spike" and not isinstance(a[5], float)) else eqnum(a[5], num(exp_ob))))
             if m.startswith("pos"):
                 c.ensure("pos_uses_decay_constant", num(a[3].get("time_constant")) == kv["tc_decay"].z)
             if m.startswith("neg"):
